@@ -1,4 +1,4 @@
-"""C09 (reduced scope) -- bit-overlap conflicts are rejected for ALL slice bounds.
+"""C09 -- bit-overlap conflicts are rejected for ALL slice bounds.
 
 A design is elaborated with placeholder slices; then the `_dsl.slice` of the slice signals is overwritten with
 slice(SymInt lo, SymInt hi) and the REAL checkers run on the injected state:
@@ -6,8 +6,10 @@ slice(SymInt lo, SymInt hi) and the REAL checkers run on the injected state:
   (a') same with a read-only third slice x[e:f] declared first (checker must not stop at the first overlapping sibling)
   (b) a block writes x[a:b], a net drives x[c:d] -> _resolve_value_connections raises iff they intersect
   (c) a block writes all of x, another x[c:d]    -> always raises
-Port-direction rules, loop-back, NoWriterError, operator checks: decided by classes and hierarchy positions, no integer
-to make symbolic -- not claimed (DESIGN 7 C09).
+Port-direction rules, NoWriterError, connection loops, operator checks and the remaining two-driver shapes are decided
+by classes and hierarchy positions -- there is no integer to make symbolic.  They are covered by finite RULE TABLES
+(corpus/illegal_designs.py): every table entry, in several statement orders, is elaborated by the real code and the outcome
+compared with the hand-written expectation (direct comparison, no solver).
 """
 import sys
 import z3
@@ -105,6 +107,46 @@ def item(it):
   return res.r
 
 
+REPLAY_RULE = '''
+sys.path.insert(0, '/verif')
+from corpus import illegal_designs as ID
+i, expected = %(i)d, %(exp)r
+fam, name, oi, cn, exp, mid = ID.index()[i]
+got = ID.outcome(i)
+ok = (got is None and expected is None) or (expected is not None and got in expected.split('|'))
+if not ok:
+  reproduced(f"{fam} / {name} (statement order {oi}: {mid}): elaboration " + (f"raised {got}" if got else "succeeded") + ", the rules demand " + (expected or "a legal design"))
+'''
+
+
+def item_rules(it):
+  """finite rule tables (port rules for blocks and connections, nets without driver, connection loops, assignment
+  operators, two drivers): every case in several statement orders, outcome against the hand-written expectation"""
+  cover.start()
+  from corpus import illegal_designs as ID
+  res = Result(f"rules/{it['family']}")
+  for i, (fam, name, oi, cn, exp, mid) in enumerate(ID.index()):
+    if fam != it['family']: continue
+    res['obligations'] += 1; res['states'] += 1
+    got = ID.outcome(i)
+    ok = (got is None and exp is None) or (exp is not None and got in exp.split('|'))
+    if ok:
+      res['discharged'] += 1
+      if oi == 0: res['distinct'].append(f"{fam}/{name}")
+    else:
+      res['violations'].append(dict(key=f"rule:{fam}:{name}:{'accepted' if got is None else got}",
+                                    what=f"{fam} / {name} (order {oi}): elaboration {'raised ' + got if got else 'succeeded'}, the rules demand {exp or 'a legal design'}",
+                                    replay=REPLAY_RULE % dict(i=i, exp=exp)))
+  res['transitions'] = res['states']
+  res['twins_expected'] = 0
+  res['samples'].append(f"{res['name']}: {res['obligations']} designs (cases x statement orders)")
+  return res.r
+
+
+def dispatch(it):
+  return item_rules(it) if it.get('kind') == 'rules' else item(it)
+
+
 def main():
   tier = sys.argv[1] if len(sys.argv) > 1 else 'quick'
   chk = Check('C09', tier)
@@ -112,13 +154,15 @@ def main():
   for n in ([8, 64] if tier == 'quick' else [8, 64, 1023]):
     for case in ('W2', 'W2R', 'WN', 'WW'):
       items.append(dict(name=f"{case}{n}", case=case, n=n))
-  for it, r in pmap(item, items, item_timeout=900):
+  from corpus import illegal_designs as ID
+  for fam in sorted({c[0] for c in ID.CASES}): items.append(dict(name=f"rules:{fam}", kind='rules', family=fam))
+  for it, r in pmap(dispatch, items, item_timeout=900):
     chk.absorb(it, r)
   chk.bounds = dict(widths=[8, 64] + ([1023] if tier == 'thorough' else []), bounds='all 0 <= lo < hi <= n for both (three) slices')
-  chk.outside = ['port-direction rules [Type 1-9]', 'loop-back rule', 'NoWriterError', 'connection loops', '@= / <<= / = operator checks', 'field-vs-parent conflicts',
-                 '(these are decided by object classes and hierarchy positions: no integer or bit to make symbolic; seed C09-m3 is therefore not detectable)']
+  chk.bounds['rule_tables'] = 'port rules for update blocks (3 signal kinds x own/child/grandchild x read/write/ff-write), for connections (18 writer/reader placements x both statement directions), nets without driver, connection loops, assignment operators (6 operators x update/update_ff, temporaries, slices, fields), two drivers (20 shapes); every case in up to 6 statement orders'
+  chk.outside = ['rule cases outside the tables (method ports, interfaces, placeholders)', 'designs deeper than four hierarchy levels']
   chk.assumptions = ['symbolic slice objects injected into _dsl.slice after elaboration: the checkers use slices only through _overlap and identity-keyed dictionaries']
-  chk.finish(rule="per (case, width): every path of the real _check_upblk_writes / _resolve_value_connections on injected symbolic slices: raises MultiWriterError iff the bit ranges intersect")
+  chk.finish(rule="per (case, width): every path of the real _check_upblk_writes / _resolve_value_connections on injected symbolic slices: raises MultiWriterError iff the bit ranges intersect; rule tables (no integer to make symbolic; every table entry x statement order is elaborated and compared with the hand-written outcome: the demanded error class, or a clean elaboration)")
 
 
 if __name__ == '__main__':
